@@ -39,8 +39,7 @@ SPEC = {
                   "every week accepted by the strict date parser and every %g rendering over [0-9eE+-.]. One deviation of "
                   "the real code from the property is proved as C18_list_exact_refuted, reproduced on the real code by the "
                   "suite and listed as a known finding.",
-    "level_note": "Known findings (real code, see KNOWN_FINDINGS.txt): copy-onto-itself (storage.Copy with the same FS object as source "
-                  "and destination empties it: C18_copy_self_refuted; excluded from the strict refinement by `deviating`) and "
+    "level_note": "Known finding (real code, see KNOWN_FINDINGS.txt): "
                   "list-below-non-utf8-dir (objects below a directory whose name is not valid UTF-8 are never listed; the "
                   "walk error is dropped). The positive listing theorems exclude exactly this class (executable predicates "
                   "`deviating` / `walkable`). The former finding read-absent-colliding is fixed in /repo (8c1d2a3): the "
